@@ -267,6 +267,8 @@ fn c08_sysv_hash_lookup_finds_every_symbol_3_syms_1_bucket() {
 
 // ---- layout side: bucket function and table geometry ----
 #[kani::proof]
+#[kani::unwind(2)]
+#[kani::solver(z3)] // u32 % u32 with both operands symbolic is SAT-hard; CBMC's SMT2 back end with z3 decides it in seconds
 fn c08_bucket_for_hash_is_mod_bucket_count() {
     let l = GnuHashLayout { num_defs: kani::any(), bucket_count: kani::any(), bloom_shift: 6, bloom_count: 1, symbol_base: kani::any() };
     kani::assume(l.bucket_count != 0);
